@@ -290,7 +290,7 @@ static void pipeline(std::uint64_t seed, int depth)
     auto tail = [=] {
         if (nest) submit(s3, depth + 1);
     };
-    switch (g_susp_mode ? 0u : r.below(7))
+    switch (g_susp_mode ? 0u : r.below(8))
     {
     case 0:    // schedule | then
         g_expected.fetch_add(1);
@@ -353,6 +353,20 @@ static void pipeline(std::uint64_t seed, int depth)
                 if (long(seen->size()) > npool)
                     monitor("bulk on a pool of " + std::to_string(npool) + " workers ran on " +
                         std::to_string(seen->size()) + " tasks");
+                g_done.fetch_add(1);
+            }));
+        break;
+    }
+    case 6:    // schedule(a) | then | continues_on(b) | bulk | then: the bulk and what follows belong to b's pool
+    {
+        g_expected.fetch_add(2);
+        int n = 1 + int(r.below(40));
+        expect eb = b.e;
+        eb.worker = -1;    // chunks are stolen between participants
+        ex::start_detached(ex::schedule(a.s) | ex::then([=] { body(a.e, s1, false); }) | ex::continues_on(b.s) |
+            ex::bulk(n, [=](int) { observe(eb, "bulk index after continues_on"); }) |
+            ex::then([=] {
+                observe(eb, "continuation of a bulk after continues_on");
                 g_done.fetch_add(1);
             }));
         break;
